@@ -208,6 +208,20 @@ def gen_description(rng, force=None, hostile=True):
                 used.discard(v["id"])
                 v["id"], v["uid"] = a + b, a + "-" + b
                 used.add(v["id"])
+    if force == "dashed-top-prefix-of-sibling" or (variants and rng.random() < 0.08):
+        # an INDEPENDENT top-level variant whose UID is <another top-level UID>-<something> (id without the dash), e.g.
+        # 'Foo' next to 'Foo-Bar' (id 'FooBar'): only the explicit child lists tell it apart from a child of 'Foo'
+        sibs = [v for v in variants if "-" not in v["uid"]]
+        if sibs:
+            sib = rng.choice(sibs)
+            tail = rng.choice(["Bar", "Tools", "X", "9"])
+            vid, uid = sib["id"] + tail, sib["uid"] + "-" + tail
+            all_uids = set(n["uid"] for n in iter_nodes(variants))
+            if vid not in used and uid not in all_uids and tail not in [c["id"] for c in sib["children"]]:
+                arches = sorted(rng.sample(ARCH_POOL, rng.randint(1, 3)))
+                variants.append({"id": vid, "uid": uid, "name": text.pretty_name(rng, hostile=hostile), "type": rng.choice(["variant", "optional", "addon"]),
+                                 "arches": arches, "paths": gen_paths(rng, arches), "release": None, "children": []})
+                used.add(vid)
     if force == "paths-full" and variants:
         v = rng.choice(list(iter_nodes(variants)))
         v["paths"] = gen_paths(rng, v["arches"], density=1.0, with_dropped=False)
@@ -272,6 +286,9 @@ def classes_of(D):
         out.append("layered-product-variant")
     if any("-" in v["uid"] and v["uid"].replace("-", "") == v["id"] for v in D["variants"]):
         out.append("dashed-top-uid")
+    tops = set(v["uid"] for v in D["variants"])
+    if any("-" in v["uid"] and v["uid"].rsplit("-", 1)[0] in tops for v in D["variants"]):
+        out.append("dashed-top-prefix-of-sibling")
     ncat = 0
     dropped = False
     for v in nodes:
